@@ -19,9 +19,11 @@ Inputs == ndJsonDeserialize(IOEnv.MCIN)
 VARIABLES stack, cur, made, reps, hist, out, phase, stopped, newAfterStop, idc, fnf, usedfn
 mvars == <<stack, cur, made, reps, hist, out, phase, stopped, newAfterStop, idc, fnf, usedfn>>
 
-MkCur(i) == [idx |-> i, ty |-> Inputs[i].ty, val |-> Inputs[i].val, pk |-> Inputs[i].pk, canonical |-> Canonical]
+MkCur(i) == [idx |-> i, ty |-> Inputs[i].ty, val |-> Inputs[i].val, pk |-> Inputs[i].pk, canonical |-> Canonical, stopped |-> FALSE]
 
 NoOut == [z |-> "none", val |-> UnitRV, ids |-> <<>>]
+\* the environment the machine sees now: the last answer of the error type was "stop" and nothing told it to continue since
+CurNow == [cur EXCEPT !.stopped = stopped]
 
 Init == /\ cur \in {MkCur(i) : i \in 1..Len(Inputs)}
         /\ stack = PushRoot(cur)
@@ -79,13 +81,13 @@ Take(c) ==
             /\ stopped' = (c.ans = "b")
             /\ idc' = idc + 1
             /\ UNCHANGED <<out, phase, fnf, usedfn>>
-      [] c.e = "mrg" /\ Top(stack).ph = "merge" ->
-            /\ stack' = AfterMrg(stack, c.ans)
+      [] c.e = "mrg" /\ c.ob.o = "handover" ->
+            /\ stack' = AfterMrg(stack, c.ob, c.ans)
             /\ hist' = Append(hist, c.ans)
-            /\ stopped' = (stopped /\ c.ans = "b")
+            /\ stopped' = (c.ans = "b")
             /\ newAfterStop' = IF c.ans = "b" THEN newAfterStop ELSE 0
             /\ UNCHANGED <<made, reps, out, phase, idc, fnf, usedfn>>
-      [] c.e = "mrg" /\ Top(stack).ph # "merge" ->
+      [] c.e = "mrg" /\ c.ob.o # "handover" ->
             \* the error of a user function enters the error type; except for the second merge of a field try_from this is a new report
             LET F == Top(stack) isrep == F.ph # "fnm2" IN
             /\ stack' = AfterFnMrg(stack, c.ans)
@@ -93,7 +95,7 @@ Take(c) ==
             /\ reps' = IF isrep THEN Append(reps, FnDesc(F.fnp.f, c.loc)) ELSE reps
             /\ hist' = Append(hist, c.ans)
             /\ newAfterStop' = IF isrep THEN (IF stopped THEN newAfterStop + 1 ELSE 0) ELSE (IF c.ans = "b" THEN newAfterStop ELSE 0)
-            /\ stopped' = IF isrep THEN (c.ans = "b") ELSE (stopped /\ c.ans = "b")
+            /\ stopped' = (c.ans = "b")
             /\ UNCHANGED <<out, phase, idc, fnf, usedfn>>
       [] c.e = "call" ->
             /\ stack' = AfterCall(stack, c)
@@ -115,7 +117,7 @@ Take(c) ==
                /\ UNCHANGED <<made, reps, hist, stopped, newAfterStop, idc, fnf, usedfn>>
 
 Next == \/ /\ phase = "running"
-           /\ \E c \in Candidates(stack, cur) : Take(c)
+           /\ \E c \in Candidates(stack, CurNow) : Take(c)
            /\ UNCHANGED cur
         \/ /\ phase = "done" /\ UNCHANGED mvars          \* the call has returned
 
@@ -131,13 +133,13 @@ Done == phase = "done"
 Inv_C01 == Done => /\ (out.z = "ok" => made = {})
                    /\ (out.z = "err" => SameBag(out.ids, SetAsSeq(made)) /\ made # {})
 \* ... and locally: a frame that is about to return Ok has seen no report since it was entered
-Inv_C01_local == \A c \in Candidates(stack, cur) : (c.e = "exit" /\ c.ok) => Top(stack).since = {}
+Inv_C01_local == \A c \in Candidates(stack, CurNow) : (c.e = "exit" /\ c.ok) => Top(stack).since = {}
 
 \* C02: a keep-going error type receives exactly the independent faults of the payload, whatever the order
 FaultsOfInput == Faults(cur.ty, cur.val, <<>>, cur.pk, fnf)
 Inv_C02 == (Done /\ AllC) => SameBag(reps, FaultsOfInput)
 \* ... and a frame never returns while obligations are pending unless a stop was answered
-Inv_C02_local == \A c \in Candidates(stack, cur) : c.e = "exit" => (Top(stack).pend = {} \/ Top(stack).brk \/ Top(stack).ph \in {"fin", "leafok"})
+Inv_C02_local == \A c \in Candidates(stack, CurNow) : c.e = "exit" => (Top(stack).pend = {} \/ Top(stack).brk \/ stopped \/ Top(stack).ph \in {"fin", "leafok"})
 
 \* C03: once stop is answered and every later answer is stop too, no new report is produced
 Inv_C03 == stopped => newAfterStop = 0
@@ -160,14 +162,14 @@ IsPrefixOf(a, b) == Len(a) <= Len(b) /\ SubSeq(b, 1, Len(a)) = a
 \* the tag of an enum is removed before it is reported as having the wrong kind, but it is a position of the payload
 Inv_C04 == /\ \A j \in 1..Len(reps) : Resolves(cur.val, reps[j].loc)
            /\ \A j \in 1..Len(stack) : IsPrefixOf(stack[j].loc, Top(stack).loc)
-           /\ \A c \in Candidates(stack, cur) : c.e = "mrg" => IsPrefixOf(Top(stack).loc, c.loc)
+           /\ \A c \in Candidates(stack, CurNow) : c.e = "mrg" => IsPrefixOf(Top(stack).loc, c.loc)
 
 \* C12: the machine never gets stuck before it has returned (checked as absence of deadlock) and always returns
-Inv_C12 == phase = "running" => Candidates(stack, cur) # {}
+Inv_C12 == phase = "running" => Candidates(stack, CurNow) # {}
 Termination == <>(phase = "done")
 
 \* the two wordings of "the value returned" agree
-Inv_Value == \A c \in Candidates(stack, cur) : (c.e = "exit" /\ c.ok) => ValueAgrees(Top(stack), ValueOfFrame(Top(stack)))
+Inv_Value == \A c \in Candidates(stack, CurNow) : (c.e = "exit" /\ c.ok) => ValueAgrees(Top(stack), ValueOfFrame(Top(stack)))
 
 (* ------------- declarative value semantics: ValueOf (C06 .. C10, C15) ---- *)
 RECURSIVE ValueOf(_, _, _)
@@ -205,7 +207,7 @@ Inv_C15 == (Done /\ out.z = "ok" /\ ~usedfn) => EqMod(out.val, ValueOf(cur.ty, c
 Inv_OkIffNoFaults == (Done /\ AllC) => ((out.z = "ok") <=> (FaultsOfInput = <<>>))
 
 \* C11: a conversion / map / validate function is only ever due in a frame that has seen no failure, and validate only after every map
-Inv_C11 == \A c \in Candidates(stack, cur) :
+Inv_C11 == \A c \in Candidates(stack, CurNow) :
               (c.e = "call" /\ c.k \in {"map", "validate"}) => (~Top(stack).fail /\ ~Top(stack).brk /\ Top(stack).pend = {} /\ Top(stack).since = {})
 Inv_C11_once == \A j \in 1..Len(stack) : \A a, b \in 1..Len(stack[j].mres) : stack[j].mres[a].fi = stack[j].mres[b].fi => a = b
 
